@@ -77,6 +77,24 @@ def run(facts, rep, ctx):
     sort_spec_rule(facts, rep, R2, ser)
     phase_rule(facts, rep, R3, R5, ser)
     intern_rule(facts, rep, R4, ser)
+    # parse -> re-serialize reproduces a canonical file only if the parser sorts every table entry into the kind the
+    # writer emitted it as: an internal pointer may point anywhere in [0, data size], a string pointer beyond it
+    R7 = rep.rule("R02.7", "the parser takes a pointer-table entry for a string pointer exactly when its value exceeds the data size", floor=1)
+    rd = facts.body(BA + "::from_bytes")
+    if rd is None or not rd.pub:
+        rep.inconc(R7, "anchor BinArchive::from_bytes missing")
+    else:
+        import c01
+        from common import Report
+        sub = Report(rep.pid)
+        sub.rules = {k: dict(v) for k, v in rep.rules.items()}
+        rm = c01.reader_model(facts, sub, R7, rd)
+        if rm is None or rm.get("classify") is None:
+            rep.inconc(R7, "the test that separates string entries from internal pointers was not recognised")
+        elif rm["classify"] == "gt-data-size":
+            rep.ok(R7, {"classification": "value > data size => string pointer"})
+        else:
+            rep.violation(R7, rd.name, "classification", "pointer entries are classified by %s (canonical files hold internal pointers with any destination up to and including the data size)" % rm["classify"], "%s:%s" % (rd.file, rd.line))
 
 
 def total_for(spec, stable, key_paths):
